@@ -99,6 +99,7 @@ type H struct {
 	Pending []int // token seqs of the Error symbols on the parser stack when the first Error was delivered
 	LastID int
 	Tap    func() Config
+	Yield  func() // injected scheduling point (concurrency check)
 
 	toks      []Token
 	pos       int
@@ -115,6 +116,9 @@ func NewH(toks []Token, rec bool) *H {
 
 // ReadToken implements the generated _Lexer interface.
 func (h *H) ReadToken() (Token, int) {
+	if h.Yield != nil {
+		h.Yield()
+	}
 	h.Reads++
 	if h.Reads > len(h.toks)+1000 {
 		panic(stop{"runaway-reads"})
@@ -215,6 +219,9 @@ func Describe(a any) Arg {
 
 // Act is called by every on_<rule> method.
 func (h *H) Act(m int, args ...any) *Node {
+	if h.Yield != nil {
+		h.Yield()
+	}
 	h.Acts++
 	h.LastID++
 	n := &Node{ID: h.LastID, M: m}
@@ -595,7 +602,14 @@ func Main(reg map[string]*Entry) {
 		out.Flush()
 		res := Result{ID: j.ID}
 		e := reg[j.Pkg]
-		if e == nil {
+		if j.Kind == "conc" {
+			var cj ConcJob
+			if err := json.Unmarshal(j.Raw, &cj); err != nil {
+				res.Error = err.Error()
+			} else {
+				res.Res = runConc(reg, &cj)
+			}
+		} else if e == nil {
 			res.Error = "unknown package " + j.Pkg
 		} else {
 			res.Res, res.Error = dispatch(e, &j)
